@@ -274,6 +274,9 @@ class Verdicts:
         return None
 
     def add(self, signature, detail):
+        only = os.environ.get("VERIF_ONLY_SIGNATURE")
+        if only is not None and signature != only:
+            return                      # a replay looks for one recorded violation only
         k = self._match(signature)
         if k is not None:
             self.known_hits.setdefault(signature, (k, detail))
@@ -304,7 +307,9 @@ class Verdicts:
             path = os.path.join(rdir, f"{self.pid}-{h}.json")
             with open(path, "w", encoding="utf-8") as f:
                 json.dump(
-                    {"property": self.pid, "signature": sig, "detail": d},
+                    {"property": self.pid, "signature": sig, "detail": d, "seed": seed(), "tier": tier(),
+                     "how_to_replay": f"bin/check {self.pid} --replay <this file>: re-runs the same deterministic run "
+                                      "(same tier and seed) and reports only this signature"},
                     f,
                     ensure_ascii=False,
                     indent=1,
